@@ -30,11 +30,28 @@ func serverEffects(c *core.Ctx, R string) {
 			}
 			return 0
 		}
-		requireEffects(c, R, u, []effect{
-			{name: "plain→HandleRequest", match: mName("HandleRequest"), on: []core.Guard{gNot(isUp)}},
+		f := requireEffects(c, R, u, []effect{
 			{name: "upgrade∧websocket-enabled→HandleUpgrade", match: mName("HandleUpgrade"), on: []core.Guard{isUp, wsOn}},
-			{name: "upgrade∧disabled→501", match: mKey("net/http.Error"), on: []core.Guard{isUp, gNot(wsOn)}},
+			// everything else — a plain request, and an upgrade request when websocket is not enabled — is verified by
+			// HandleRequest (→ documented 400 + connection_error; the 501 text/plain answer was fix 2fb2bf7)
+			{name: "otherwise→HandleRequest", match: mName("HandleRequest")},
 		})
+		if hu, hr := f["upgrade∧websocket-enabled→HandleUpgrade"], f["otherwise→HandleRequest"]; hu != nil && hr != nil {
+			g := u.Graph()
+			exclusive := !g.CanFollow(hu.Loc, hr.Loc) && !g.CanFollow(hr.Loc, hu.Loc)
+			every := true
+			for _, r := range returnsIn(u) {
+				every = every && g.DominatesAny([]core.Loc{hu.Loc, hr.Loc}, r.Loc)
+			}
+			if len(returnsIn(u)) == 0 {
+				// no explicit return: the function falls off its end — one of the two calls lies on every path when
+				// they are the two arms of one test
+				every = !g.GuardedBy(hr.Loc, isUp) || !g.GuardedBy(hr.Loc, wsOn)
+			}
+			own := len(u.CallsTo("net/http.Error")) == 0
+			c.Check(R, "engine.(*server).ServeHTTP/every-request-is-handled-by-the-engine", u.Pos(), exclusive && every && own,
+				keyf("HandleUpgrade and HandleRequest exclusive: %v; one of them on every path: %v; no answer of its own (http.Error): %v", exclusive, every, own))
+		}
 	}
 	// ---- CreateTransport ----
 	if u := c.Fn(R, "engine.(*server).CreateTransport"); u != nil {
